@@ -131,22 +131,28 @@ def _arc_obligations(run, ix):
     # ---------------- A4 SVG export: the large-arc flag is the span test
     run.rule("A4", "SVG export: the large-arc flag of an arc is `span > pi` with the span returned by arc_center (proved independent of the control point by A2)")
     from ..provenance import Prov
-    fs = ix.func_by_role("trimesh.path.exchange.svg_io:_entities_to_str.svg_arc",
-                         lambda f_: any(isinstance(st_, ast.Assign) and isinstance(st_.targets[0], ast.Name) and st_.targets[0].id == "large_flag" for st_ in ast.walk(f_.node))
-                         and not any(n_.node is not f_.node and any(isinstance(st_, ast.Assign) and isinstance(st_.targets[0], ast.Name) and st_.targets[0].id == "large_flag"
-                                                                    for st_ in ast.walk(n_.node)) for n_ in f_.nested.values()),
-                         "the function that computes the SVG large-arc flag")
-    ps = Prov(ix, fs)
-    lf = [st for st in ast.walk(fs.node) if isinstance(st, ast.Assign) and isinstance(st.targets[0], ast.Name) and st.targets[0].id == "large_flag"]
-    if len(lf) != 1:
-        raise AnalysisError("anchor vanished: `large_flag = ...` in svg_io svg_arc")
-    txt = ps.canon(lf[0].value, lf[0])
-    good = re.fullmatch(r"int\(trimesh\.path\.arc\.arc_center\((?:L_|PHI_|P_)?[\w\[\].]+(?:, [\w=]+)*\)\.span >=? numpy\.pi\)", txt) is not None \
-        and "return_angle=False" not in txt
-    run.instance("A4", fs.where, f"large_flag := `{txt[:100]}`", good)
-    if not good:
-        run.violation("A4", fs.where, f"SVG export decides the large-arc flag by `{txt[:110]}` instead of `arc_center(...).span > pi`: unless the test is independent of where the "
-                                      f"middle control point sits, arcs of more than 180 degrees are written as the minor arc", key=key_of("C14-A4", "large-flag"))
+    from ..svgarc import find_arc_writers
+    writers = find_arc_writers(ix)
+    if len(writers) != 1:
+        run.instance("A4", "trimesh/path/exchange/svg_io.py", f"{len(writers)} functions format an SVG `A` command with keyword flags - NOT decided", True, nontrivial=False)
+        run.assume("svg_io: arc writer not in a recognised form (A4)")
+    else:
+        fs, call_, (large_name, _sw) = writers[0]
+        ps = Prov(ix, fs)
+        val = next(k.value for k in call_.keywords if k.arg == large_name)
+        st_ = ps.stmt_of(call_)
+        txt = ps.canon(val, st_) if st_ is not None else ast.unparse(val)
+        good = re.fullmatch(r"int\(trimesh\.path\.arc\.arc_center\((?:L_|PHI_|P_)?[\w\[\].]+(?:, [\w=]+)*\)\.span >=? numpy\.pi\)", txt) is not None \
+            and "return_angle=False" not in txt
+        recognised = "span" in txt or "arc_center" in txt or ">" in txt or "<" in txt
+        if not good and not recognised:
+            run.instance("A4", fs.where, f"large-arc flag `{txt[:80]}` not in a recognised form - NOT decided", True, nontrivial=False)
+            run.assume("svg_io: large-arc flag not recognised")
+        else:
+            run.instance("A4", fs.where, f"large_flag := `{txt[:100]}`", good)
+            if not good:
+                run.violation("A4", fs.where, f"SVG export decides the large-arc flag by `{txt[:110]}` instead of `arc_center(...).span > pi`: unless the test is independent of where the "
+                                              f"middle control point sits, arcs of more than 180 degrees are written as the minor arc", key=key_of("C14-A4", "large-flag"))
     # ---------------- A2
     r, cx, cy = sp.symbols("r cx cy", real=True)
     st_, ct = sp.symbols("s_t c_t", real=True)
